@@ -4,6 +4,9 @@
 # (default: everything). Never uses -vos/-vok.
 set -e
 cd "$(dirname "$0")/../coq"
+mkdir -p ../.build
+exec 9>../.build/coqbuild.lock
+flock 9
 { echo "-Q theories LanceV"; echo "-arg -w -arg -notation-overridden,-deprecated-hint-without-locality,-deprecated-instance-without-locality"; find theories -name '*.v' | LC_ALL=C sort; } > _CoqProject.new
 if ! cmp -s _CoqProject.new _CoqProject 2>/dev/null; then mv _CoqProject.new _CoqProject; coq_makefile -f _CoqProject -o Makefile.gen >/dev/null; else rm _CoqProject.new; fi
 [ -f Makefile.gen ] || coq_makefile -f _CoqProject -o Makefile.gen >/dev/null
